@@ -490,6 +490,8 @@ class Dec(Suite):
         return cases
 
     def model_expr(self, c):
+        if len(c["data"]) > 24000:      # > 12 KB: coqc overflows its stack on such literals; direct oracle only
+            return None
         return 'c12_dec %s %s %s "%s"' % (coq_N(c["hs"]), coq_bool(c["skiphash"]), coq_list(['"%s"' % s for s in c["sums"]]), c["data"])
 
     def nontrivial(self, c):
